@@ -136,6 +136,18 @@ Theorem fixed_blank_lines_are_data : forall l crlf X,
   /\ (forall fuel gen, f2_fetch (S fuel) (l ++ eol crlf ++ X) gen = Some (Some l, X, S gen)).
 Proof. exact nonempty_line_kept. Qed.
 
+(* a CRLF terminator takes exactly one CR: a line whose own text contains CR - anywhere, also as its
+   last rune (on the wire CR CR LF), or a line of CRs only - is delivered with its text unchanged *)
+Theorem fixed_cr_in_text_is_data : forall t X, t <> [] -> mem_byte LF t = false ->
+  read_line (t ++ CR :: LF :: X) = RLOk t X
+  /\ (forall fuel, f1_readline (S fuel) (t ++ CR :: LF :: X) = Some (Some t, X))
+  /\ (forall fuel gen, f2_fetch (S fuel) (t ++ CR :: LF :: X) gen = Some (Some t, X, S gen)).
+Proof. exact crlf_takes_one_cr. Qed.
+
+Example fixed_cr_nonvacuous :
+  read_line (hx "61620d0d0a63") = RLOk (hx "61620d") (hx "63") /\ read_line (hx "0d0d0a63") = RLOk (hx "0d") (hx "63").
+Proof. vm_compute. auto. Qed.
+
 Example fixed_blank_line_nonvacuous :
   (* rows: 2, the second line of the envelope is three blanks: it is the envelope's second row *)
   let d := mkEnv2 (hx "72") (Rows 2) true 0 None [mkFCol (hx "61") 1 2 (Some 1) None; mkFCol (hx "62") 1 5 (Some 2) None] in
